@@ -902,8 +902,11 @@ def search_type_filter(ctx, im, cls):
     entries += [(ml, (lambda g, o, ml=ml: setattr(g, ml, [o]))) for ml in im.mlist]
     if im.c['family'] == 'observer0D':
         entries.append(('__init__', None))
+    reported = set()
     for kind in CANDIDATE_KINDS:
         for entry, f in entries:
+            if entry in reported:
+                continue         # one report per (class, entry point)
             cand = _PlainObserver0D.make() if kind == 'PlainObserver0D' else make_member(kind, 'cand')
             own = isinstance(cand, accepted)
             good = make_member(im.member_kind, 'good')
@@ -928,14 +931,14 @@ def search_type_filter(ctx, im, cls):
                 if st != 'ok' or not is_member or not adopted:
                     ctx.fail('C15:%s.%s:rejects-own-type' % (im.name, entry), '%s.%s refuses a %s although it is a %s (%s)' % (
                         im.name, entry, kind, '/'.join(a.__name__ for a in accepted), st), rep)
-                    return
+                    reported.add(entry)
             else:
                 unchanged = entry == '__init__' or (entry in im.mlist and _same_objs(members, [good])) or _same_objs(members, [good])
                 if st == 'ok' or is_member or adopted or not unchanged:
                     ctx.fail('C15:%s.%s:accepts-wrong-type' % (im.name, entry),
                              '%s.%s with a %s (not a %s): outcome %s, became a member: %s, re-parented to the group: %s' % (
                                  im.name, entry, kind, '/'.join(a.__name__ for a in accepted), st, is_member, adopted), rep)
-                    break        # one report per (class, entry point) is enough; try the next candidate kind
+                    reported.add(entry)
 
 
 def _ref(im, mattr, v):
